@@ -37,6 +37,7 @@ structure FreshOf (p : Provider) (c : Ctx) : Prop where
   provider : c.provider = p
   create : createInfo p.create = .ok (c.createEvent, c.create, c.creators, c.privilegedCreators)
   pl : plInfo p.powerLevels (senderOfOpt c.createEvent) = .ok (c.plEvent, c.pl)
+  plErr : c.plErr = plErrOf p.powerLevels
   jr : c.joinRule = (jrInfo p.joinRules).2
 
 theorem freshOf_fields {p : Provider} {c : Ctx} (h : freshOf p = .ok c) : FreshOf p c := by
@@ -52,7 +53,7 @@ theorem freshOf_fields {p : Provider} {c : Ctx} (h : freshOf p = .ok c) : FreshO
       obtain ⟨pe, pl⟩ := r2
       simp only [hpi] at h
       cases h
-      exact ⟨rfl, hci, hpi, rfl⟩
+      exact ⟨rfl, hci, hpi, rfl, rfl⟩
 
 /-- the parts of two contexts that the create and power-levels events determine coincide -/
 structure CoreEq (c1 c2 : Ctx) : Prop where
@@ -62,6 +63,7 @@ structure CoreEq (c1 c2 : Ctx) : Prop where
   priv : c1.privilegedCreators = c2.privilegedCreators
   plEvent : c1.plEvent = c2.plEvent
   pl : c1.pl = c2.pl
+  plErr : c1.plErr = c2.plErr
 
 theorem createEq_of {p q : Provider} {c1 c2 : Ctx} (h1 : FreshOf p c1) (h2 : FreshOf q c2) (hc : p.create = q.create) :
     c1.createEvent = c2.createEvent ∧ c1.create = c2.create ∧ c1.creators = c2.creators
@@ -77,7 +79,7 @@ theorem coreEq_of {p q : Provider} {c1 c2 : Ctx} (h1 : FreshOf p c1) (h2 : Fresh
   have := h1.pl
   rw [hp, a, h2.pl] at this
   simp only [Except.ok.injEq, Prod.mk.injEq] at this
-  exact ⟨a, b, c, d, this.1.symm, this.2.symm⟩
+  exact ⟨a, b, c, d, this.1.symm, this.2.symm, by rw [h1.plErr, h2.plErr, hp]⟩
 
 /-! ### each check reads the context only through those parts and the named lookups -/
 
@@ -384,10 +386,10 @@ theorem needed_aliases (e : Event) (h1 : (e.type == b!"m.room.create") = false) 
   unfold stateNeeded
   simp [h1, h2, neededPairs]
 
-/-- two fresh contexts whose providers agree on the needed pairs answer alike -/
-theorem ctx_allowed_congr {p q : Provider} {c1 c2 : Ctx} (hf1 : FreshOf p c1) (hf2 : FreshOf q c2) (e : Event) (sig : Bool)
-    (ha : Agree e p q) (hcont : hasContent e = true) : c1.allowed e sig = c2.allowed e sig := by
-  unfold Ctx.allowed
+/-- two fresh contexts whose providers agree on the needed pairs dispatch alike -/
+theorem ctx_dispatch_congr {p q : Provider} {c1 c2 : Ctx} (hf1 : FreshOf p c1) (hf2 : FreshOf q c2) (e : Event) (sig : Bool)
+    (ha : Agree e p q) (hcont : hasContent e = true) : c1.dispatch e sig = c2.dispatch e sig := by
+  unfold Ctx.dispatch
   by_cases h1 : (e.type == b!"m.room.create") = true
   · simp only [h1, if_true]; rfl
   · have h1' : (e.type == b!"m.room.create") = false := by simpa using h1
@@ -399,8 +401,7 @@ theorem ctx_allowed_congr {p q : Provider} {c1 c2 : Ctx} (hf1 : FreshOf p c1) (h
     · have h2' : (e.type == b!"m.room.aliases") = false := by simpa using h2
       simp only [h2', Bool.false_eq_true, if_false]
       by_cases h3 : (e.type == b!"m.room.member") = true
-      · simp only [h3, if_true]
-        unfold hasContent at hcont
+      · unfold hasContent at hcont
         simp only [h3, if_true] at hcont
         cases hcnt : e.content with
         | none => simp [hcnt] at hcont
@@ -409,6 +410,13 @@ theorem ctx_allowed_congr {p q : Provider} {c1 c2 : Ctx} (hf1 : FreshOf p c1) (h
             intro h; subst h; simp [hcnt] at hcont
           obtain ⟨n1, n2, n3, n4, n5⟩ := needed_member e h3 c hcnt hn
           have hcore : CoreEq c1 c2 := coreEq_of hf1 hf2 (ha _ n1) (ha _ n2)
+          rw [hcore.plErr]
+          cases c2.plErr with
+          | some v => rfl
+          | none =>
+          simp only
+          unfold Ctx.dispatchPL
+          simp only [h3, if_true]
           apply member_congr hcore e sig
           · rw [hf1.provider, hf2.provider]; exact ha _ n3
           · intro k hk; rw [hf1.provider, hf2.provider]; exact ha _ (n4 k hk)
@@ -435,16 +443,28 @@ theorem ctx_allowed_congr {p q : Provider} {c1 c2 : Ctx} (hf1 : FreshOf p c1) (h
             rw [hf1.provider, hf2.provider]
             exact ha _ ((n5 kvs rfl).2.2 s (by rw [← f2]; exact hs) htok)
       · have h3' : (e.type == b!"m.room.member") = false := by simpa using h3
-        simp only [h3', Bool.false_eq_true, if_false]
         obtain ⟨n1, n2, n3⟩ := needed_other e h1' h2' h3'
         have hcore : CoreEq c1 c2 := coreEq_of hf1 hf2 (ha _ n1) (ha _ n2)
         have hm : c1.provider.get b!"m.room.member" e.sender = c2.provider.get b!"m.room.member" e.sender := by
           rw [hf1.provider, hf2.provider]; exact ha _ n3
+        rw [hcore.plErr]
+        cases c2.plErr with
+        | some v => rfl
+        | none =>
+        simp only
+        unfold Ctx.dispatchPL
+        simp only [h3', Bool.false_eq_true, if_false]
         split
         · exact powerLevels_congr hcore e hm
         · split
           · exact redact_congr hcore e hm
           · exact default_congr hcore e hm
+
+/-- two fresh contexts whose providers have the same Valid() bit and agree on the needed pairs answer alike -/
+theorem ctx_allowed_congr {p q : Provider} {c1 c2 : Ctx} (hf1 : FreshOf p c1) (hf2 : FreshOf q c2) (e : Event) (sig : Bool)
+    (hv : p.valid = q.valid) (ha : Agree e p q) (hcont : hasContent e = true) : c1.allowed e sig = c2.allowed e sig := by
+  unfold Ctx.allowed
+  rw [hf1.provider, hf2.provider, hv, ctx_dispatch_congr hf1 hf2 e sig ha hcont]
 
 /-- **The verdict needs only the needed state** (exact form).  If the two providers have the same Valid() bit and answer
     alike for every (type, state_key) pair that StateNeededForAuth names for `e`, and both verdicts are inside the modelled
@@ -471,24 +491,32 @@ theorem verdict_exact (e : Event) (p q : Provider) (sig : Bool) (hv : p.valid = 
         exact absurd rfl (hq w)
       | ok c2 =>
         simp only
-        rw [ctx_allowed_congr (freshOf_fields hf1) (freshOf_fields hf2) e sig ha hcont]
+        rw [ctx_allowed_congr (freshOf_fields hf1) (freshOf_fields hf2) e sig hv ha hcont]
 
 /-- two contexts that agree on the cached parts and whose providers answer EVERY lookup alike check alike -/
 theorem ctx_allowed_congr_all {c1 c2 : Ctx} (h : CoreEq c1 c2) (hj : c1.joinRule = c2.joinRule)
-    (hg : ∀ t k, c1.provider.get t k = c2.provider.get t k) (e : Event) (sig : Bool) :
+    (hg : ∀ t k, c1.provider.get t k = c2.provider.get t k) (hv : c1.provider.valid = c2.provider.valid) (e : Event) (sig : Bool) :
     c1.allowed e sig = c2.allowed e sig := by
-  unfold Ctx.allowed
+  unfold Ctx.allowed Ctx.dispatch
+  rw [hv, h.plErr]
   split
   · rfl
   · split
-    · exact alias_congr h.create e
+    · rfl
     · split
-      · exact member_congr h e sig (hg _ _) (fun k _ => hg _ _) (fun _ _ _ => hj) (fun _ _ _ => hg _ _) (fun _ _ _ _ _ _ => hg _ _)
-      · split
-        · exact powerLevels_congr h e (hg _ _)
-        · split
-          · exact redact_congr h e (hg _ _)
-          · exact default_congr h e (hg _ _)
+      · exact alias_congr h.create e
+      · cases c2.plErr with
+        | some v => rfl
+        | none =>
+          simp only
+          unfold Ctx.dispatchPL
+          split
+          · exact member_congr h e sig (hg _ _) (fun k _ => hg _ _) (fun _ _ _ => hj) (fun _ _ _ => hg _ _) (fun _ _ _ _ _ _ => hg _ _)
+          · split
+            · exact powerLevels_congr h e (hg _ _)
+            · split
+              · exact redact_congr h e (hg _ _)
+              · exact default_congr h e (hg _ _)
 
 /-- **The verdict is a function of the lookups and the Valid() bit**: providers that answer every lookup alike (whatever
     the order in which their events were added) give EQUAL verdicts — no side condition. -/
@@ -513,9 +541,9 @@ theorem verdict_of_gets (e : Event) (p q : Provider) (sig : Bool) (hv : p.valid 
         obtain ⟨pe, pl⟩ := r2
         simp only
         exact congrArg verdictOf (ctx_allowed_congr_all
-          (c1 := Ctx.mk p true ce cc cr pr pe pl (jrInfo q.joinRules).1 (jrInfo q.joinRules).2)
-          (c2 := Ctx.mk q true ce cc cr pr pe pl (jrInfo q.joinRules).1 (jrInfo q.joinRules).2)
-          ⟨rfl, rfl, rfl, rfl, rfl, rfl⟩ rfl hg e sig)
+          (c1 := Ctx.mk p true ce cc cr pr pe pl (plErrOf q.powerLevels) (jrInfo q.joinRules).1 (jrInfo q.joinRules).2)
+          (c2 := Ctx.mk q true ce cc cr pr pe pl (plErrOf q.powerLevels) (jrInfo q.joinRules).1 (jrInfo q.joinRules).2)
+          ⟨rfl, rfl, rfl, rfl, rfl, rfl, rfl⟩ rfl hg hv e sig)
 
 /-! ### membership events without a content are never accepted -/
 
@@ -635,6 +663,22 @@ theorem member_type_facts {e : Event} (ht : (e.type == b!"m.room.member") = true
   have : e.type = b!"m.room.member" := by simpa using ht
   rw [this]; exact ⟨by decide, by decide⟩
 
+/-- what `allowed` answers for a membership event: one of the two gates refuses, or the membership check decides -/
+theorem allowed_member_cases (c : Ctx) (p : Provider) (hf : Fresh p c) (e : Event) (sig : Bool)
+    (ht : (e.type == b!"m.room.member") = true) :
+    c.allowed e sig = notAllowed ∨ c.allowed e sig = failErr ∨ c.allowed e sig = c.memberEventAllowed e sig := by
+  obtain ⟨h1, h2⟩ := member_type_facts ht
+  unfold Ctx.allowed Ctx.dispatch Ctx.dispatchPL
+  simp only [h1, h2, ht, Bool.false_eq_true, if_false, if_true]
+  split
+  · exact Or.inl rfl
+  · cases hpe : c.plErr with
+    | none => exact Or.inr (Or.inr rfl)
+    | some v =>
+      rcases (plErr_spec hf).2 v hpe with rfl | rfl
+      · exact Or.inl rfl
+      · exact Or.inr (Or.inl rfl)
+
 /-- a membership event without a content is refused whatever the auth events are -/
 theorem no_content_coarse (e : Event) (p : Provider) (sig : Bool) (ht : (e.type == b!"m.room.member") = true)
     (hc : e.content = none ∨ e.content = some .null) (hr : e.roomID ≠ []) (hm : Modelled (allowedFresh e p sig)) :
@@ -648,8 +692,10 @@ theorem no_content_coarse (e : Event) (p : Provider) (sig : Bool) (ht : (e.type 
       | error v => obtain ⟨w, rfl⟩ := freshOf_error hf; intro h; cases h
       | ok c =>
         simp only [verdictOf]
-        unfold Ctx.allowed
-        simp only [h1, h2, ht, Bool.false_eq_true, if_false, if_true]
+        rcases allowed_member_cases c p (fresh_of hf) e sig ht with hal | hal | hal
+        · rw [hal]; intro h; cases h
+        · rw [hal]; intro h; cases h
+        rw [hal]
         have hne := member_no_content_ne_ok c e sig hc
         have heo := (eo_member c e sig).h
         cases hma : c.memberEventAllowed e sig with
@@ -666,8 +712,10 @@ theorem no_content_coarse (e : Event) (p : Provider) (sig : Bool) (ht : (e.type 
       | error v => obtain ⟨w, rfl⟩ := freshOf_error hf; intro h; cases h
       | ok c =>
         simp only [verdictOf]
-        unfold Ctx.allowed
-        simp only [h1, h2, ht, Bool.false_eq_true, if_false, if_true]
+        rcases allowed_member_cases c p (fresh_of hf) e sig ht with hal | hal | hal
+        · rw [hal]; intro h; cases h
+        · rw [hal]; intro h; cases h
+        rw [hal]
         have hnp := (np_member c p (fresh_of hf) e sig hr).h site
         cases hma : c.memberEventAllowed e sig with
         | ok u => cases u; intro h; cases h
